@@ -165,8 +165,18 @@ fn c24_signer_first_use_race() {
 fn c24_cancel_shared_while_signing() {
     let seen = Arc::new(AtomicUsize::new(0));
     let go = Arc::new(AtomicBool::new(false));
-    let (seen2, go2) = (seen.clone(), go.clone());
+    // set by the cancelling thread AFTER Context::cancel() returned; a checkpoint whose callback
+    // starts with this flag visible must end the operation (check_progress reads the cancel flag
+    // after the callback).  "Some checkpoint ran after checkpoint #2" is NOT enough: the
+    // cancelling thread may not have been scheduled yet (first version of this oracle, a false
+    // alarm under one Miri schedule).
+    let cancel_returned = Arc::new(AtomicBool::new(false));
+    let after_cancel = Arc::new(AtomicUsize::new(0));
+    let (seen2, go2, cr2, ac2) = (seen.clone(), go.clone(), cancel_returned.clone(), after_cancel.clone());
     let shared = Arc::new(Context::new().with_settings(settings("gen-a", false).as_str()).unwrap().with_progress_callback(move |_, _, _| {
+        if cr2.load(Ordering::SeqCst) {
+            ac2.fetch_add(1, Ordering::SeqCst);
+        }
         if seen2.fetch_add(1, Ordering::SeqCst) == 1 {
             go2.store(true, Ordering::SeqCst);
             for _ in 0..50 {
@@ -184,6 +194,7 @@ fn c24_cancel_shared_while_signing() {
             std::thread::yield_now();
         }
         s2.cancel();
+        cancel_returned.store(true, Ordering::SeqCst);
     });
     let by = bystander.clone();
     let b = std::thread::spawn(move || sign_tiny(&by, signer().as_ref()));
@@ -191,8 +202,8 @@ fn c24_cancel_shared_while_signing() {
     c.join().unwrap();
     let rb = b.join().unwrap();
     assert!(matches!(ra, Ok(_) | Err(c2pa::Error::OperationCancelled)), "{:?}", ra.as_ref().err());
-    if seen.load(Ordering::SeqCst) > 2 {
-        // a checkpoint ran after the cancel was issued from inside checkpoint #2
+    if after_cancel.load(Ordering::SeqCst) > 0 {
+        // a checkpoint started after cancel() had returned
         assert!(matches!(ra, Err(c2pa::Error::OperationCancelled)), "checkpoint after cancel but result {:?}", ra.as_ref().map(|v| v.len()));
     }
     let signed_b = rb.expect("bystander context must not be cancelled");
